@@ -254,6 +254,36 @@ func poolTypestate(c *core.Ctx, rule string) {
 			if len(puts) > 1 && fn.Name() != "Release" {
 				okPut, why = false, "several Put calls in one function"
 			}
+			// once it is back in the pool the object belongs to whoever gets it next: no use after the Put
+			if refs := arg.Referrers(); refs != nil && okPut {
+				pi, isInstr := p.(ssa.Instruction)
+				for _, r := range *refs {
+					if !isInstr || r == pi {
+						continue
+					}
+					if mi, isMI := r.(*ssa.MakeInterface); isMI {
+						// the conversion handed to Put itself
+						onlyPut := true
+						if mrefs := mi.Referrers(); mrefs != nil {
+							for _, mr := range *mrefs {
+								if mr != pi {
+									onlyPut = false
+								}
+							}
+						}
+						if onlyPut {
+							continue
+						}
+					}
+					if _, isDbg := r.(*ssa.DebugRef); isDbg {
+						continue
+					}
+					after := (r.Block() == pi.Block() && instrIndex(r) > instrIndex(pi)) || (r.Block() != pi.Block() && pi.Block().Dominates(r.Block()))
+					if after {
+						okPut, why = false, "the object is used after it was put back into the pool (at "+c.Prog.Pos(r.Pos())+"): it is shared with whoever gets it next"
+					}
+				}
+			}
 			c.Decide(okPut, rule, key, pos, "Put by the owner", why)
 		}
 	}
